@@ -19,6 +19,7 @@ pub enum Fam {
     HashOut,
     Threefish,
     VecIo,
+    VecIoWrong,
     BlockApi,
     JhBlock,
 }
@@ -66,6 +67,8 @@ pub fn kinds() -> Vec<KindDesc> {
             for be in 0..2 {
                 v.push(KindDesc { name: format!("vec_io:{}:{}:{}", m, t.0, if be == 1 { "be" } else { "le" }), fam: Fam::VecIo, a: mi, b: ti, c: be, bases: vec![], pres: vec![0] });
             }
+            // slices of the wrong size: the safe API must refuse them (panic) or stay inside them - never touch memory outside
+            v.push(KindDesc { name: format!("vec_io_wrong_size:{}:{}", m, t.0), fam: Fam::VecIoWrong, a: mi, b: ti, c: 0, bases: vec![], pres: vec![0, 1, 2, 3] });
         }
     }
     v.push(KindDesc { name: "block_api:refill".into(), fam: Fam::BlockApi, a: 1, b: 0, c: 0, bases: vec![], pres: vec![0] });
@@ -83,7 +86,7 @@ pub fn combos(k: &[KindDesc]) -> Vec<(usize, usize, usize, u8)> {
             let bases = if d.bases.is_empty() { vec![0usize] } else { d.bases.clone() };
             for base in bases {
                 // VecIo machines are explicit types: the host level is irrelevant for them
-                let levels: Vec<u8> = if d.fam == Fam::VecIo || d.fam == Fam::Threefish || maxl == 0 { vec![0] } else { (0..=maxl).collect() };
+                let levels: Vec<u8> = if d.fam == Fam::VecIo || d.fam == Fam::VecIoWrong || d.fam == Fam::Threefish || maxl == 0 { vec![0] } else { (0..=maxl).collect() };
                 for l in levels {
                     out.push((ki, *pre, base, l));
                 }
@@ -164,6 +167,7 @@ impl Scenario for S5 {
             (Fam::HashOut, fam.u_or("hashout", 1)),
             (Fam::Threefish, fam.u_or("threefish", 1)),
             (Fam::VecIo, fam.u_or("vecio", 1)),
+            (Fam::VecIoWrong, fam.u_or("vecio", 1).min(1)),
             (Fam::BlockApi, fam.u_or("blockapi", 1)),
             (Fam::JhBlock, fam.u_or("jh", 1)),
         ];
@@ -187,6 +191,7 @@ impl Scenario for S5 {
                 (*r.pick(&[0, 0, 1, b - 1, b / 2]), if r.chance(1, 8) { r.range(0, 4200) } else { r.range(0, 5 * b) })
             }
             Fam::HashOut => (r.range(0, 2 * TYPES[d.a].block as u64), 0),
+            Fam::VecIoWrong => (r.below(4), 0),
             _ => (0, 0),
         };
         let mode = st.place.below(3) as u128;
@@ -393,6 +398,37 @@ fn exec(d: &KindDesc, pre: usize, len: usize, mode: Mode, off: usize, dseed: u64
                 return Err(("byte load/store round trip changes the bytes".into(), "read_x then write_x is not the identity".into()));
             }
             Ok(hash_bytes(&plain))
+        }
+        Fam::VecIoWrong => {
+            // pre selects the defect: 0 source one byte short, 1 source one byte long, 2 destination short, 3 destination long
+            let size = VTYPES[d.b].1;
+            let (slen, dlen) = match pre % 4 {
+                0 => (size - 1, size),
+                1 => (size + 1, size),
+                2 => (size, size - 1),
+                _ => (size, size + 1),
+            };
+            let be = dseed & 32 != 0;
+            let input = pattern(dseed | 2, slen);
+            let src = arena.place(0, &input, mode, off);
+            arena.readonly(0);
+            let mut dst = arena.place(1, &vec![0u8; dlen], mode, (off * 11 + 5) % 64);
+            let placed = guarded(|| vec_io(d.a, d.b, be, src.slice(), dst.slice_mut()));
+            let mut plain = vec![0u8; dlen];
+            let ordinary = guarded(|| vec_io(d.a, d.b, be, &input, &mut plain));
+            if !arena.canaries_ok(&dst) {
+                return Err(("writes outside the slice".into(), format!("a {}-byte destination for a {}-byte vector: canary bytes were modified", dlen, size)));
+            }
+            match (placed, ordinary) {
+                (Err(_), Err(_)) => Ok(1),
+                (Ok(()), Ok(())) => {
+                    if dst.slice() != &plain[..] {
+                        return Err(("result depends on buffer placement".into(), "wrong-size vector I/O returns different bytes".into()));
+                    }
+                    Ok(hash_bytes(&plain))
+                }
+                _ => Err(("refusal depends on buffer placement".into(), "wrong-size vector I/O panics for one placement only".into())),
+            }
         }
         Fam::BlockApi => {
             use c2_chacha::guts::ChaCha;
